@@ -289,6 +289,15 @@ impl Context {
         final(out).code@ == old(out).code@, final(context).label_map@ == old(context).label_map@,
 //@end
 
+// an OFFSET used as a byte constant must fit in a byte
+//@action src/lib/preprocessor/preprocessor.rs u_byte_num = offset as as_offset_as_byte
+//@contract
+    ensures
+        o <= 255 ==> r == Ok::<u8, ParseError>(o as u8),
+        o > 255 ==> r.is_err(),
+        final(out).code@ == old(out).code@, final(out).data@ == old(out).data@, final(context).label_map@ == old(context).label_map@,
+//@end
+
 // unsupported instructions are always refused
 //@action src/lib/preprocessor/preprocessor.rs control_unsupported = quote_control_unsuppoted as as_unsupported
 //@contract
